@@ -632,7 +632,9 @@ func (fsm *storeFSM) Snapshot() (raft.FSMSnapshot, error) {
 	s.mu.Lock()
 	defer s.mu.Unlock()
 
-	return &storeFSMSnapshot{Data: (*store)(fsm).data}, nil
+	// The published value keeps being stamped with the term and index of
+	// later log entries, so the snapshot must hold its own copy.
+	return &storeFSMSnapshot{Data: (*store)(fsm).data.Clone()}, nil
 }
 
 func (fsm *storeFSM) Restore(r io.ReadCloser) error {
